@@ -303,6 +303,12 @@ fn eval_class(name: &str) -> Vec<(String, String)> {
 pub fn replay(input: &Value) -> Vec<(String, String)> {
 	match input["kind"].as_str().unwrap_or("") {
 		"class" => eval_class(input["type"].as_str().unwrap_or("")),
+		"root-leg" => {
+			// re-run the whole (small) filesystem-root leg and report its violations
+			let mut o = EnumOut::new("replay");
+			root_leg(&mut o);
+			o.violations.into_iter().map(|c| (c.key, c.detail)).collect()
+		}
 		"tree" => {
 			let Ok(t) = serde_json::from_value::<Tree>(input["tree"].clone()) else {
 				return vec![("C20/replay/bad-input".into(), "tree".into())];
@@ -433,6 +439,7 @@ pub fn run(tier: Tier, seed: u64) -> EnumOut {
 			out.violate(k, d, json!({"kind": "class", "type": name}));
 		}
 	}
+	root_leg(&mut out);
 	out.extra.insert("marker_names".into(), json!(names.len() - DECOYS.len()));
 	out.extra.insert("decoy_names".into(), json!(DECOYS.len()));
 	out.extra.insert("project_types".into(), json!(TYPES.len()));
@@ -442,4 +449,109 @@ pub fn run(tier: Tier, seed: u64) -> EnumOut {
 		"tmpfs at /dev/shm; ancestors above the generated base are compared with a std::fs listing".into(),
 	];
 	out
+}
+
+
+// ---------------------------------------------------------------------------------------------
+// filesystem-root leg: the chain of ancestors ends at "/", which can only carry markers
+// inside a chroot. A child process of this binary chroots into a scratch tree and calls
+// origins() / types() there; the parent compares with the placements. Skipped (with a note,
+// never a verdict) when chroot(2) is not permitted.
+
+const ROOT_CASES: [(&str, bool); 4] = [("", false), ("Cargo.toml", false), (".git", true), ("package.json", false)];
+
+/// Entry point of the chrooted child: `h-enum C20 --chroot-leg <dir>`.
+pub fn chroot_child(dir: &str) -> i32 {
+	extern "C" {
+		fn chroot(path: *const std::os::raw::c_char) -> i32;
+		fn chdir(path: *const std::os::raw::c_char) -> i32;
+	}
+	let c = std::ffi::CString::new(dir).expect("path");
+	let slash = std::ffi::CString::new("/").expect("path");
+	if unsafe { chroot(c.as_ptr()) } != 0 || unsafe { chdir(slash.as_ptr()) } != 0 {
+		println!("CHROOT-UNAVAILABLE");
+		return 0;
+	}
+	let rt = tokio::runtime::Builder::new_current_thread().enable_all().build().expect("rt");
+	let mut res = serde_json::Map::new();
+	for start in ["/work/proj/src", "/work/proj", "/work", "/"] {
+		let mut o: Vec<String> = rt.block_on(project_origins::origins(start)).into_iter().map(|p| p.to_string_lossy().to_string()).collect();
+		o.sort();
+		res.insert(start.to_string(), json!(o));
+	}
+	let mut t: Vec<String> = rt.block_on(project_origins::types("/")).into_iter().map(|t| format!("{t:?}")).collect();
+	t.sort();
+	res.insert("types(/)".to_string(), json!(t));
+	println!("CHROOT-RESULT {}", Value::Object(res));
+	0
+}
+
+fn root_leg(out: &mut EnumOut) {
+	let scratch = Scratch::new("c20root");
+	let exe = match std::env::current_exe() {
+		Ok(e) => e,
+		Err(_) => return,
+	};
+	let mut ran = 0u64;
+	for (root_marker, root_is_dir) in ROOT_CASES {
+		for proj_marker in ["", ".git"] {
+			let r = scratch.path().join(format!("r-{}-{}", if root_marker.is_empty() { "none" } else { root_marker }, if proj_marker.is_empty() { "none" } else { "git" }));
+			let _ = std::fs::remove_dir_all(&r);
+			if std::fs::create_dir_all(r.join("work/proj/src")).is_err() {
+				return;
+			}
+			if !root_marker.is_empty() {
+				if root_is_dir {
+					let _ = std::fs::create_dir_all(r.join(root_marker));
+				} else {
+					let _ = std::fs::write(r.join(root_marker), "x");
+				}
+			}
+			if !proj_marker.is_empty() {
+				let _ = std::fs::create_dir_all(r.join("work/proj").join(proj_marker));
+			}
+			let o = std::process::Command::new(&exe).args(["C20", "--chroot-leg", &r.to_string_lossy()]).output();
+			let Ok(o) = o else { continue };
+			let text = String::from_utf8_lossy(&o.stdout).to_string();
+			if text.contains("CHROOT-UNAVAILABLE") {
+				out.extra.insert("filesystem_root_leg".into(), json!("skipped: chroot(2) not permitted"));
+				return;
+			}
+			let Some(line) = text.lines().find(|l| l.starts_with("CHROOT-RESULT ")) else {
+				out.extra.insert("filesystem_root_leg".into(), json!("skipped: the chrooted child gave no result"));
+				return;
+			};
+			let Ok(v) = serde_json::from_str::<Value>(&line["CHROOT-RESULT ".len()..]) else { continue };
+			ran += 1;
+			for start in ["/work/proj/src", "/work/proj", "/work", "/"] {
+				out.states += 1;
+				out.evaluations += 1;
+				// expected: the marked directories among the start and its ancestors, "/" included
+				let mut want: Vec<String> = vec![];
+				let chain: Vec<&str> = match start {
+					"/work/proj/src" => vec!["/work/proj/src", "/work/proj", "/work", "/"],
+					"/work/proj" => vec!["/work/proj", "/work", "/"],
+					"/work" => vec!["/work", "/"],
+					_ => vec!["/"],
+				};
+				for d in chain {
+					if (d == "/" && !root_marker.is_empty()) || (d == "/work/proj" && !proj_marker.is_empty()) {
+						want.push(d.to_string());
+					}
+				}
+				want.sort();
+				let got: Vec<String> = v[start].as_array().map(|a| a.iter().filter_map(|x| x.as_str().map(str::to_string)).collect()).unwrap_or_default();
+				out.nontrivial_mark(("root-leg", root_marker, proj_marker, start, got.clone()));
+				if got != want {
+					let what = if want.contains(&"/".to_string()) && !got.contains(&"/".to_string()) { "missed-filesystem-root" } else if got.len() > want.len() { "spurious" } else { "missed" };
+					out.violate(
+						format!("C20/origins/{what}/root-marker-{}", if root_marker.is_empty() { "none" } else { root_marker }),
+						format!("in a chroot with {root_marker:?} in / and {proj_marker:?} in /work/proj: origins({start}) = {got:?}, expected {want:?}"),
+						json!({"kind": "root-leg", "root_marker": root_marker, "proj_marker": proj_marker, "start": start}),
+					);
+				}
+			}
+		}
+	}
+	out.extra.insert("filesystem_root_leg".into(), json!(format!("{ran} chrooted trees x 4 start paths")));
 }
